@@ -379,7 +379,14 @@ func body(r *eng.Run) {
 		r.Eval(1)
 		r.Outcome(out)
 		if out != "reject" {
-			r.Distinct(s)
+			// canonical key of a non-trivial case: the printed form (or the raw string for
+			// rejected URIs) plus the shape class of the input spelling
+			key := s
+			if p, err := path.NewPathFromURI(s); err == nil {
+				key = p.String()
+			}
+			tr, dt, ds := shape(s)
+			r.Distinct(key + "|" + tr + dt + ds)
 			r.Add("paths_accepted_or_uri", 1)
 		}
 		if v != nil {
@@ -440,7 +447,26 @@ func body(r *eng.Run) {
 	// name that round-trips (the candidate need not be canonical itself)
 	nAcc := 0
 	for _, pre := range []string{"", "/ipns/", "/ipns//", "ipns://", "/ipfs/", "/"} {
-		for _, root := range append(structRoots(), freeTokens()...) {
+		roots := append(structRoots(), freeTokens()...)
+		// every textual form of the first peer ID of each key type, plus CIDs with the
+		// same multihash under a non-libp2p-key codec
+		seenType := map[string]bool{}
+		for _, nc := range pool {
+			typ, _, _ := strings.Cut(nc.Label, "#")
+			if seenType[typ] {
+				continue
+			}
+			seenType[typ] = true
+			raw, _ := hex.DecodeString(nc.Pid)
+			pid := peer.ID(raw)
+			c := peer.ToCid(pid)
+			roots = append(roots, pid.String(), c.String())
+			for _, b := range []mb.Encoding{mb.Base36, mb.Base36Upper, mb.Base58BTC, mb.Base32Upper, mb.Base16, mb.Base64url} {
+				roots = append(roots, must(c.StringOfBase(b)))
+			}
+			roots = append(roots, cid.NewCidV1(cid.DagProtobuf, c.Hash()).String(), cid.NewCidV1(cid.Raw, c.Hash()).String(), strings.ToUpper(pid.String()))
+		}
+		for _, root := range roots {
 			for _, suf := range []string{"", "/", "/a"} {
 				in := pre + root + suf
 				var n ipns.Name
